@@ -69,10 +69,17 @@ def splice_contracts(scratch_repo, log):
 
 
 INCLUDE = re.compile(r"^//@include\s+(\S+)\s*$", re.M)
+GENERATED = {}  # name -> text, filled by lib/arms.py before the modules are appended
 
 
 def expand_includes(body, log, crate, src):
     def sub(m):
+        if m.group(1).startswith("generated:"):
+            key = m.group(1)[len("generated:"):]
+            if key not in GENERATED:
+                raise LostAnchor("R6: generated include %s not available" % key)
+            log.append("R6 %s/%s: included generated text %s" % (crate, src, key))
+            return GENERATED[key]
         p = os.path.join(CONTRACTS, m.group(1))
         with open(p) as fh:
             txt = fh.read()
